@@ -749,6 +749,8 @@ def run(an: Analysis, rep):
         rep.run(r114, an, rep, V)
         rep.run(r116, an, rep, V)
     rep.run(r115, an, rep)
+    from .common import purity
+    rep.run(purity, an, rep, "R11.P", ["from_code", "to_code"])
     rep.run(r117, an, rep)
     rep.run(r119, an, rep)
     from .common import SharedRules
